@@ -38,8 +38,24 @@ pub fn set_run(k: u64) {
         unsafe {
             std::ptr::copy_nonoverlapping(k.to_le_bytes().as_ptr(), p, 8);
             std::ptr::write_bytes(p.add(8), 0, 8);
+            beat(p);
         }
     }
+}
+
+/// Heartbeat counter at offset 256: moves on every store, so an outside monitor can tell "same label
+/// again" from "no progress at all".
+#[inline]
+unsafe fn beat(p: *mut u8) {
+    let q = p.add(256) as *mut u64;
+    q.write_unaligned(q.read_unaligned().wrapping_add(1));
+}
+
+/// The raw page (run index, label, heartbeat) for change detection by the supervisor.
+pub fn read_raw(path: &str) -> Vec<u8> {
+    let mut b = std::fs::read(path).unwrap_or_default();
+    b.truncate(264);
+    b
 }
 
 /// Record the label of the call about to be made (entry point, operation).
@@ -51,6 +67,7 @@ pub fn at(label: &str) {
         unsafe {
             std::ptr::copy_nonoverlapping((n as u64).to_le_bytes().as_ptr(), p.add(8), 8);
             std::ptr::copy_nonoverlapping(label.as_ptr(), p.add(16), n);
+            beat(p);
         }
     }
     LABEL.with(|l| {
